@@ -35,7 +35,7 @@ RULE = ("valid structural map requests of the C01 generator (internal axes at an
         "order for <= 3 parts (thorough) else a random order, each part run with cleanup=False on the same folder, then a "
         "full run; malformed requests (reduced axis, unknown axis, index out of range on root and on internal axes, "
         "step 0); learners of create_learners with/without split_independent_axes run in random generation-respecting "
-        "orders by adaptive.runner.simple or a plain loop; plus the exhaustive slice/int table against CPython; "
+        "orders (keys in any order, interleaved or key by key) by adaptive.runner.simple or a plain loop; plus the exhaustive slice/int table against CPython; "
         "non-trivial = >= 2 parts or a learner run; distinct by (specs, shapes, parts/order)")
 ASSUMPTIONS = ["sequential semantics (parallel=False)",
                "user functions are deterministic and return arrays of the declared internal shape",
@@ -619,6 +619,20 @@ def gen_order(rng, shape, mode):
                 if g < len(gens):
                     out += [(k, g, l) for l in range(gens[g])]
         return out
+    if mode in ("keys-reversed", "keys-shuffled"):
+        # key by key (every key is self-contained: generations only order the learners of ONE key), keys permuted
+        keys = list(range(len(shape)))
+        if mode == "keys-reversed":
+            keys.reverse()
+        else:
+            rng.shuffle(keys)
+        out = []
+        for k in keys:
+            for g, n in enumerate(shape[k]):
+                ls = list(range(n))
+                rng.shuffle(ls)
+                out += [(k, g, l) for l in ls]
+        return out
     # random interleaving of the keys' chains, random order inside each generation
     pos = [0] * len(shape)
     out = []
@@ -635,11 +649,24 @@ def gen_order(rng, shape, mode):
     return out
 
 
+def has_axis_free_producer(req):
+    """Some function that is not mapped over any root axis (no MapSpec inputs) feeds a mapped function."""
+    free = {o for f in req["funcs"] if not (f.get("spec") and f["spec"]["i"]) for o in f["outs"]}
+    return any(f.get("spec") and f["spec"]["i"] and free & set(f["params"]) for f in req["funcs"])
+
+
 def gen_learners_case(rng, small=False):
-    for _ in range(50):
+    want_free = rng.random() < 0.35   # a shared upstream function + split keys: every key must be self-contained
+    for attempt in range(400):
+        if attempt == 150:
+            want_free = False
         req = sorted_like_pipeline(gen_req(rng, small=small))
-        split = rng.random() < 0.6
+        if want_free and not has_axis_free_producer(req):
+            continue
+        split = True if want_free else rng.random() < 0.6
         shape = _learner_shape(req, split)
+        if want_free and (shape is None or len(shape) < 2):
+            continue
         if shape is None:
             if rng.random() < 0.15:  # keep a few creation failures (reduced independent axis)
                 return {"kind": "learners", "req": req, "split": split, "order": [], "driver": "simple", "rev": False,
@@ -647,7 +674,10 @@ def gen_learners_case(rng, small=False):
             continue
         if sum(sum(g) for g in shape) > 40:
             continue
-        mode = rng.choice(["keywise", "genwise", "random", "random"])
+        modes = ["keywise", "genwise", "random", "random"]
+        if len(shape) > 1:
+            modes += ["keys-reversed", "keys-shuffled", "keys-shuffled", "random"]
+        mode = rng.choice(modes)
         driver = rng.choice(["simple", "loop", "loop"])
         return {"kind": "learners", "req": req, "split": split, "order": gen_order(rng, shape, mode),
                 "driver": driver, "rev": driver == "loop" and rng.random() < 0.5, "tag": f"{mode}-{driver}"}
